@@ -13,6 +13,8 @@ CONSTANTS
   Modes = {"fresh", "catchup"}
   Kinds = {"closed", "lost", "won", "other", "xclosed", "created", "xowner", "xownerp", "xdseq"}
   Lax = FALSE
+  ErrKinds = {1, 2, 3, 4}
+  NfKinds = {1}
   TimeoutCfgs = {TRUE}
 INVARIANTS TypeOK C13Bid C13Released WonIsOurs Pipeline OneReady ExportDone
 CHECK_DEADLOCK FALSE
